@@ -317,6 +317,14 @@ func workerSearch(t *testing.T, sc *Scenario, tier string) {
 		if os.Getenv("VERIF_RUN_DIGESTS") != "" {
 			out.RunDigests = append(out.RunDigests, fmt.Sprintf("%016x:%d", res.Digest, res.Steps))
 		}
+		if d := os.Getenv("VERIF_DUMP_DIR"); d != "" {
+			// debugging aid of the determinism self-test: the full schedule of every run
+			var b strings.Builder
+			for _, e := range res.Events {
+				fmt.Fprintf(&b, "%d %d %s | %s %v\n", e.Step, e.At, e.Task, e.Op, e.Dec)
+			}
+			os.WriteFile(fmt.Sprintf("%s/run%d.txt", d, run), []byte(b.String()), 0o644)
+		}
 		nFaults := 0
 		for k, v := range res.Faults {
 			out.Faults[k] += v
@@ -402,7 +410,7 @@ func workerSearch(t *testing.T, sc *Scenario, tier string) {
 		sim.WatchdogInfo.Store(fmt.Sprintf("prop=%s seed=%d run=%d", sc.Prop, seed, run))
 		tape := sim.NewTape(seed, run)
 		curRun = run
-		keep := len(out.Samples) < 2
+		keep := len(out.Samples) < 2 || os.Getenv("VERIF_DUMP_DIR") != ""
 		if sc.Enum == nil {
 			res, _ := runOnce(t, sc, tape, tier, keep)
 			account(run, res, keep, nil)
